@@ -216,10 +216,11 @@ func IsValidProposalWithManifest(proposal ProposalSignFact, manifest Manifest) e
 func IsValidOperationsTreeWithManifest(tr fixedtree.Tree, ops []Operation, manifest Manifest) error {
 	e := util.ErrInvalid.Errorf("operations and tree with manifest")
 
-	switch n := len(ops); {
-	case tr.Len() != n:
-		return e.Errorf("number does not match")
-	case n < 1:
+	if tr.Len() < 1 {
+		if len(ops) > 0 {
+			return e.Errorf("number does not match")
+		}
+
 		return nil
 	}
 
@@ -236,11 +237,19 @@ func IsValidOperationsTreeWithManifest(tr fixedtree.Tree, ops []Operation, manif
 		return e.Errorf("duplicated operation found in operations")
 	}
 
+	// NOTE block writer keeps only the operations processed into states in the
+	// operations item; the others are in the tree only, with their reason.
+	var instates int
+
 	if err := tr.Traverse(func(_ uint64, node fixedtree.Node) (bool, error) {
 		switch on, err := util.AssertInterfaceValue[OperationFixedtreeNode](node); {
 		case err != nil:
 			return false, err
+		case !on.InState():
+			return true, nil
 		default:
+			instates++
+
 			if _, found := mops[on.Operation().String()]; !found {
 				return false, errors.Errorf("operation in tree not found in operations")
 			}
@@ -249,6 +258,10 @@ func IsValidOperationsTreeWithManifest(tr fixedtree.Tree, ops []Operation, manif
 		}
 	}); err != nil {
 		return e.Wrap(err)
+	}
+
+	if instates != len(ops) {
+		return e.Errorf("number does not match")
 	}
 
 	if !tr.Root().Equal(manifest.OperationsTree()) {
